@@ -20,6 +20,7 @@ for d in $HERE/seeded/*/; do
   git -C $R apply $p
   MC_WORKERS=${MC_WORKERS:-8} $H/check $id quick > $HERE/target/logs/seed.$n.log 2>&1; rc=$?
   git -C $R checkout -q -- .
+  git -C $R apply --numstat $p | cut -f3 | while read f; do [ -f "$R/$f" ] && touch "$R/$f"; done
   echo "$n exit=$rc violations=$(grep -c '^VIOLATION' $HERE/target/logs/seed.$n.log) :: $(grep '^  key=' $HERE/target/logs/seed.$n.log | head -3 | cut -c7-90 | tr '\n' ';')" >> $OUT
 done
 echo "done $(date)" >> $OUT
